@@ -53,8 +53,8 @@ func suiteHash(c *ctx) {
 			s = g.schema(schemaOpts{maxTables: 1 + c.rng.Intn(3), maxCols: 1 + c.rng.Intn(5), indexes: true, fks: false})
 		}
 		if i == 0 && c.dialect == "" {
-			s = &gSchema{Tables: []*gTable{{Name: "t", Cols: []ColDef{{Name: "id", Typ: "int(11)", Opts: []Opt{{Kind: "notnull"}, {Kind: "pk"}}}, {Name: "a", Typ: "int(11)"}, {Name: "b", Typ: "varchar(64)"}, {Name: "c", Typ: "int(11)"}},
-				Idx: []gIndex{{Name: "i1", Cols: []string{"a"}}, {Name: "i2", Cols: []string{"b", "c"}, Unique: true}}},
+			s = &gSchema{Tables: []*gTable{{Name: "t", Cols: []ColDef{{Name: "id", Typ: "int(11)", Opts: []Opt{{Kind: "notnull"}, {Kind: "pk"}}}, {Name: "a", Typ: "int(11)"}, {Name: "userName", Typ: "varchar(64)"}, {Name: "c", Typ: "int(11)"}},
+				Idx: []gIndex{{Name: "i1", Cols: []string{"a"}}, {Name: "i2", Cols: []string{"userName", "c"}, Unique: true}}}, // a mixed-case column under an index (seeded change C07-e)
 				{Name: "u", Cols: []ColDef{{Name: "x", Typ: "int(11)"}, {Name: "y", Typ: "decimal(10,2)"}}}}}
 		}
 		base := s.scriptGrouped()
